@@ -79,6 +79,28 @@ class Table:
     def where(self, pred: Callable[[dict[str, Any], Any], bool]) -> list[tuple[dict[str, Any], Any]]:
         return [(a, r) for a, r in self.rows if pred(a, r)]
 
+    @staticmethod
+    def canon(text: str) -> "tuple[str, bool]":
+        """(positive spelling of an atom, polarity): 'a != b' -> ('a == b', False), 'x not in y' -> ('x in y', False), 'a is not b' -> ('a is b', False)."""
+        try:
+            e = ast.parse(text, mode="eval").body
+        except SyntaxError:
+            return text, True
+        if isinstance(e, ast.Compare) and len(e.ops) == 1:
+            flip = {ast.NotEq: ast.Eq, ast.IsNot: ast.Is, ast.NotIn: ast.In}
+            for neg, pos in flip.items():
+                if isinstance(e.ops[0], neg):
+                    return norm(ast.Compare(left=e.left, ops=[pos()], comparators=e.comparators)), False
+        return norm(e), True
+
+    def has(self, text: str) -> bool:
+        return self.canon(text)[0] in self.atoms
+
+    def truth(self, a: dict[str, Any], text: str) -> bool:
+        """Truth of an atom in a row, whichever polarity it is asked in."""
+        k, pol = self.canon(text)
+        return bool(a[k]) if pol else not bool(a[k])
+
     def describe(self, a: dict[str, Any]) -> str:
         return ", ".join(f"{k}={v!r}" for k, v in sorted(a.items()))
 
@@ -94,6 +116,7 @@ class PredEval:
         self.atoms: list[str] = []
         self._const_cache: dict[int, Any] = {}
         self._key_cache: dict[tuple, str] = {}
+        self._cmp_nodes: dict[tuple, ast.Compare] = {}
         self._keep: list[Any] = []  # keeps synthesised nodes alive so that id()-keyed caches stay valid
         self._collect()
         # values the calling rule wants told apart even if the function no longer mentions them (else they hide in OTHER)
@@ -410,21 +433,37 @@ class PredEval:
             return True  # an unknown non-constant value of a subject: truthy (ids, codes are non-empty strings)
         return bool(v)
 
+    def _cmp_atom(self, left: ast.expr, op: ast.cmpop, right: ast.expr) -> bool:
+        """An opaque comparison: `a != b`, `a is not b`, `a not in b` are the negations of the atoms `a == b`, `a is b`, `a in b`
+        (so a test and its negated spelling are one atom, not two independent ones)."""
+        flip = {ast.NotEq: ast.Eq, ast.IsNot: ast.Is, ast.NotIn: ast.In}
+        for neg, pos in flip.items():
+            if isinstance(op, neg):
+                return not self._atom(self._mk_cmp(left, pos(), right))
+        return self._atom(self._mk_cmp(left, op, right))
+
+    def _mk_cmp(self, left: ast.expr, op: ast.cmpop, right: ast.expr) -> ast.Compare:
+        k = (id(left), type(op).__name__, id(right))
+        c = self._cmp_nodes.get(k)
+        if c is None:
+            c = self._cmp_nodes[k] = ast.Compare(left=left, ops=[op], comparators=[right])
+        return c
+
     def _cmp(self, left: ast.expr, op: ast.cmpop, right: ast.expr) -> bool:
         lv, rv = self._operand(left), self._operand(right)
         if lv is TOP or rv is TOP:
             # one side is opaque: the whole comparison is an opaque atom
-            return self._atom(ast.Compare(left=left, ops=[op], comparators=[right]))
+            return self._cmp_atom(left, op, right)
         if isinstance(op, (ast.Eq, ast.Is)):
             return self._eq(lv, rv)
         if isinstance(op, (ast.NotEq, ast.IsNot)):
             return not self._eq(lv, rv)
         if isinstance(op, (ast.In, ast.NotIn)):
             if not isinstance(rv, tuple):
-                return self._atom(ast.Compare(left=left, ops=[op], comparators=[right]))
+                return self._cmp_atom(left, op, right)
             res = any(self._eq(lv, x) for x in rv)
             return res if isinstance(op, ast.In) else not res
-        return self._atom(ast.Compare(left=left, ops=[op], comparators=[right]))
+        return self._cmp_atom(left, op, right)
 
     @staticmethod
     def _eq(a: Any, b: Any) -> bool:
